@@ -154,7 +154,7 @@ class LiteDRAMAvalonMM2Native(LiteXModule):
             ).Else(
                 avalon.waitrequest.eq(1),
                 # Wait for the FIFO to be empty
-                If((cmd_fifo.level == 0) & (wdata_fifo.level == 1) & port.wdata.ready,
+                If((burst_count == 0) & (cmd_fifo.level == 0) & (wdata_fifo.level == 1) & port.wdata.ready,
                     NextState("START")
                 )
             ),
